@@ -568,9 +568,55 @@ class Body:
                         return self.expr_call(sd[2], depth + 1, inline_user, seen2)
         return ('local', l, nm or ('_%d' % l))
 
+    def _agreeing_field(self, l, f, depth, inline_user, seen):
+        """expression of field f of local l when l has several definitions that all (through plain moves) are
+        aggregates carrying the same expression in that field - e.g. the tuple returned by an inlined helper with
+        more than one `return (.., x)`"""
+        d, _partial = self.defs()
+        terminal = []
+        work = [l]
+        visited = set()
+        while work:
+            x = work.pop()
+            if x in visited:
+                continue
+            visited.add(x)
+            defs = d.get(x, [])
+            if not defs or len(visited) > 12:
+                return None
+            for df in defs:
+                if df[0] != 'stmt':
+                    return None
+                r = df[3]['r']
+                if r['k'] == 'use':
+                    q = r['o'].get('m') or r['o'].get('c')
+                    if q is None or q.get('pj'):
+                        return None
+                    work.append(q['l'])
+                elif r['k'] == 'agg' and r.get('ak') in ('tuple',) and f < len(r['ops']):
+                    terminal.append(r['ops'][f])
+                else:
+                    return None
+        if not terminal:
+            return None
+        seen2 = (seen or frozenset()) | visited
+        es = [self.expr_operand(o, depth + 1, inline_user, seen2) for o in terminal]
+        if all(x == es[0] for x in es[1:]):
+            return es[0]
+        return None
+
     def expr_place(self, p, depth=0, inline_user=False, seen=None):
         e = self.expr_local(p['l'], depth, inline_user, seen)
-        for el in p.get('pj', []):
+        pj0 = p.get('pj', [])
+        skip_first = False
+        if pj0 and isinstance(pj0[0], dict) and 'f' in pj0[0] and e[0] == 'local' and \
+                e[1] > self.arg_count and not self.is_user(e[1]) and depth < 40 and \
+                e[1] not in (seen or frozenset()):
+            alt = self._agreeing_field(e[1], pj0[0]['f'], depth, inline_user, seen)
+            if alt is not None:
+                e = alt
+                skip_first = True
+        for el in (pj0[1:] if skip_first else pj0):
             if el == '*':
                 e = ('deref', e)
             elif 'f' in el:
